@@ -67,6 +67,7 @@ class VisualParameters(TextData):
     @values.setter
     def values(self, values: np.ndarray | str | None):
         self._values = values
+        self._xml = None
 
         if not isinstance(values, (np.ndarray, str, type(None))):
             raise ValueError(
